@@ -22,6 +22,7 @@ use fbh::Ctx;
 use zip::write::FileOptions;
 use zip::{CompressionMethod, DateTime, ZipWriter};
 
+pub const REPLAY_NOTE: &str = "how to read the jars below: every entry is written into a zip archive (zip crate; `deflate` = CompressionMethod::Deflated, else Stored) or put into a ParsedJar, as `route` says (Unnamed/Named = UnnamedMemJar/NamedMemJar, File = FileJar on disk, Parsed = ParsedJar); Class(AClass) is built by harness/src/bin/c13/classes.rs to_duke and written by duke::write_class; an attribute (name, seed, len) has the bytes noise(seed, len) (xorshift64*, classes.rs); long byte strings are shown as <length, fnv64>, `origin` says how they are made";
 pub const MANIFEST_NAME: &str = "META-INF/MANIFEST.MF";
 pub const MANIFEST_BYTES: &[u8] = b"Manifest-Version: 1.0\nMain-Class: net.minecraft.client.Main\n";
 
@@ -77,7 +78,7 @@ pub struct PEntry { pub name: String, pub attr: u64, pub content: PContent }
 #[derive(Clone, Debug)]
 pub enum OContent { Dir, Other(Vec<u8>), Vec { raw: u64, bytes: Vec<u8> }, Parsed(PClass) }
 #[derive(Clone, Debug)]
-pub struct OEntry { pub name: String, pub attr: u64, pub content: OContent, /** facts of a ClassRepr::Parsed result's tree */ pub facts: Option<Box<ClassFacts>> }
+pub struct OEntry { pub name: String, pub attr: u64, pub content: OContent, /** facts of a ClassRepr::Parsed result's tree */ pub facts: Option<Box<ClassFacts>>, /** the bytes a ClassRepr::Parsed result yields (IsClass::write = duke::write_class) */ pub written: Option<Vec<u8>> }
 #[derive(Clone, Debug)]
 pub enum Outcome { Ok(Vec<OEntry>), Fail, Panic }
 
@@ -154,6 +155,7 @@ fn project_out(j: &ParsedJar<ClassRepr, Vec<u8>>, it: &mut Interner) -> Vec<OEnt
 	j.entries.iter().map(|(name, e)| OEntry {
 		name: name.clone(), attr: it.text(format!("{:?}", e.attr)),
 		facts: match &e.content { JarEntryEnum::Class(ClassRepr::Parsed { class }) => facts_of_tree(class), _ => None },
+		written: match &e.content { JarEntryEnum::Class(ClassRepr::Parsed { class }) => guarded(AssertUnwindSafe(|| { let mut b = Vec::new(); duke::write_class(&mut b, class).ok().map(|()| b) })).ok().flatten(), _ => None },
 		content: match &e.content {
 			JarEntryEnum::Dir => OContent::Dir,
 			JarEntryEnum::Other(d) => OContent::Other(d.clone()),
@@ -165,34 +167,39 @@ fn project_out(j: &ParsedJar<ClassRepr, Vec<u8>>, it: &mut Interner) -> Vec<OEnt
 
 pub struct Merged { pub client: Vec<PEntry>, pub server: Vec<PEntry>, pub outcome: Outcome, pub reopened: Option<Vec<(String, Option<Vec<u8>>)>> }
 
+enum BuiltJar { Unnamed(UnnamedMemJar), Named(NamedMemJar), File(FileJar), Parsed(ParsedJar<ClassRepr, Vec<u8>>) }
+macro_rules! with_jar {
+	($b:expr, $j:ident => $body:expr) => { match $b { BuiltJar::Unnamed($j) => $body, BuiltJar::Named($j) => $body, BuiltJar::File($j) => $body, BuiltJar::Parsed($j) => $body } };
+}
+
+fn build(j: &AJar, kind: JarKind, tmp: &Path, side: &str) -> anyhow::Result<BuiltJar> {
+	Ok(match kind {
+		JarKind::Unnamed => BuiltJar::Unnamed(UnnamedMemJar { data: build_zip(j)? }),
+		JarKind::Named => BuiltJar::Named(NamedMemJar { name: format!("{side}.jar"), data: build_zip(j)? }),
+		JarKind::File => { let path = tmp.join(format!("{side}.jar")); std::fs::create_dir_all(tmp)?; std::fs::write(&path, build_zip(j)?)?; BuiltJar::File(FileJar { path }) }
+		JarKind::Parsed => BuiltJar::Parsed(build_parsed(j)?),
+	})
+}
+
+/// the attributes the implementation itself reads from a jar, entry by entry
+fn read_attrs<J: Jar>(j: &J) -> Result<Vec<BasicFileAttributes>, String> {
+	let e2s = |e: anyhow::Error| format!("{e:#}");
+	let mut o = j.open().map_err(e2s)?;
+	let keys: Vec<_> = o.entry_keys().collect();
+	keys.into_iter().map(|k| o.by_entry_key(k).map(|e| e.attrs()).map_err(e2s)).collect()
+}
+
 /// builds both jars, runs dukebox::merge::merge, projects everything
-pub fn run_merge(client: &AJar, server: &AJar, route: Route, reopen: bool) -> Result<Merged, String> {
+pub fn run_merge(client: &AJar, server: &AJar, route: Route, reopen: bool, tmp: &Path) -> Result<Merged, String> {
 	let mut it = Interner::default();
 	let e2s = |e: anyhow::Error| format!("{e:#}");
-	let (pc, ps, res) = match route {
-		Route::Zip => {
-			let cj = UnnamedMemJar { data: build_zip(client).map_err(e2s)? };
-			let sj = UnnamedMemJar { data: build_zip(server).map_err(e2s)? };
-			let read_attrs = |j: &UnnamedMemJar| -> Result<Vec<BasicFileAttributes>, String> {
-				let mut o = j.open().map_err(e2s)?;
-				let keys: Vec<_> = o.entry_keys().collect();
-				keys.into_iter().map(|k| o.by_entry_key(k).map(|e| e.attrs()).map_err(e2s)).collect()
-			};
-			let (ca, sa) = (read_attrs(&cj)?, read_attrs(&sj)?);
-			let pc = prepare(client, route, &ca, &mut it)?;
-			let ps = prepare(server, route, &sa, &mut it)?;
-			(pc, ps, guarded(AssertUnwindSafe(|| dukebox::merge::merge(cj, sj))))
-		}
-		Route::Parsed => {
-			let cj = build_parsed(client).map_err(e2s)?;
-			let sj = build_parsed(server).map_err(e2s)?;
-			let ca: Vec<_> = client.iter().map(|e| attrs_of(e.time)).collect();
-			let sa: Vec<_> = server.iter().map(|e| attrs_of(e.time)).collect();
-			let pc = prepare(client, route, &ca, &mut it)?;
-			let ps = prepare(server, route, &sa, &mut it)?;
-			(pc, ps, guarded(AssertUnwindSafe(|| dukebox::merge::merge(cj, sj))))
-		}
-	};
+	let cj = build(client, route.c, tmp, "client").map_err(e2s)?;
+	let sj = build(server, route.s, tmp, "server").map_err(e2s)?;
+	let ca = with_jar!(&cj, j => read_attrs(j))?;
+	let sa = with_jar!(&sj, j => read_attrs(j))?;
+	let pc = prepare(client, route.c, &ca, &mut it)?;
+	let ps = prepare(server, route.s, &sa, &mut it)?;
+	let res = with_jar!(cj, c => with_jar!(sj, s => guarded(AssertUnwindSafe(|| dukebox::merge::merge(c, s)))));
 	let mut reopened = None;
 	let outcome = match res {
 		Err(_) => Outcome::Panic,
@@ -228,10 +235,17 @@ pub fn run_merge(client: &AJar, server: &AJar, route: Route, reopen: bool) -> Re
 }
 
 // ---------------------------------------------------------------- Gallina
+/// resource bytes for the model, which only copies and compares them: short ones literally, long ones
+/// as [256 + length; three 21-bit pieces of a 64-bit hash] (no byte list starts with a number > 255)
+fn g_bytes(d: &[u8]) -> String {
+	if d.len() <= 64 { return gnums(d.iter().map(|&b| b as u64)); }
+	let h = fnv64(d);
+	gnums([256 + d.len() as u64, h & 0x1f_ffff, (h >> 21) & 0x1f_ffff, h >> 42])
+}
 fn g_entry(e: &PEntry) -> String {
 	let c = match &e.content {
 		PContent::Dir => "Dir".to_owned(),
-		PContent::Other(d) => format!("(Other {})", gnums(d.iter().map(|&b| b as u64))),
+		PContent::Other(d) => format!("(Other {})", g_bytes(d)),
 		PContent::Class { parsed_repr, raw, parsed, .. } => format!("(Class {} {} {})", if *parsed_repr { "RParsed" } else { "RVec" }, raw, gopt(parsed.as_ref().map(g_class))),
 	};
 	format!("mkEntry {} {} {}", gstr(&cps_str(&e.name)), e.attr, c)
@@ -239,7 +253,7 @@ fn g_entry(e: &PEntry) -> String {
 fn g_oentry(e: &OEntry) -> String {
 	let c = match &e.content {
 		OContent::Dir => "ODir".to_owned(),
-		OContent::Other(d) => format!("(OOther {})", gnums(d.iter().map(|&b| b as u64))),
+		OContent::Other(d) => format!("(OOther {})", g_bytes(d)),
 		OContent::Vec { raw, .. } => format!("(OVec {raw})"),
 		OContent::Parsed(c) => format!("(OParsed {})", g_class(c)),
 	};
@@ -264,7 +278,7 @@ pub fn compatible<T: PartialEq + Clone>(a: &[T], b: &[T]) -> bool {
 }
 
 /// exact-once union and order of a merged key list; returns the complaints
-fn check_keys<T: PartialEq + Clone + std::fmt::Debug>(what: &str, a: &[T], b: &[T], m: &[T], bad: &mut Vec<String>) {
+pub fn check_keys<T: PartialEq + Clone + std::fmt::Debug>(what: &str, a: &[T], b: &[T], m: &[T], bad: &mut Vec<String>) {
 	if !nodup(a) || !nodup(b) { return; } // outside the property's domain (a class file cannot have duplicates)
 	if !nodup(m) { bad.push(format!("{what}: an element appears twice in the merged list {m:?}")); }
 	for x in a.iter().chain(b.iter()) { if !m.contains(x) { bad.push(format!("{what}: {x:?} of an input is missing from the merged list {m:?}")); } }
@@ -317,6 +331,14 @@ fn check_merged_class(name: &str, c: &PClass, s: &PClass, m: &PClass, bad: &mut 
 		}
 	}
 	if m.vis != c.vis { bad.push(format!("{name}: a class both sides have must not get a class-level side mark")); }
+	// faithful union of what the merge does not mark: what both sides agree on stays
+	if c.perm == s.perm { if m.perm != c.perm { bad.push(format!("{name}: both sides have the permitted subclasses {:?}, the merged class has {:?}", c.perm, m.perm)); } }
+	else {
+		if m.perm.is_none() { bad.push(format!("{name}: a side has permitted subclasses, the merged class has no PermittedSubclasses")); }
+		check_keys(&format!("{name} permitted subclasses"), c.perm.as_deref().unwrap_or(&[]), s.perm.as_deref().unwrap_or(&[]), m.perm.as_deref().unwrap_or(&[]), bad);
+	}
+	if c.rec == s.rec && m.rec != c.rec { bad.push(format!("{name}: both sides have the same record components, the merged class has {}", if m.rec == 0 { "none" } else { "others" })); }
+	if c.rec != s.rec && m.rec != c.rec && m.rec != s.rec { bad.push(format!("{name}: the record components of the merged class are neither the client's nor the server's")); }
 }
 
 /// the side marks and keys of a class as the independent parser sees them, against the projection of the merge result
@@ -358,8 +380,8 @@ fn facts_differ(f: &fbh::classfile::facts::ClassFacts, p: &PClass) -> Option<&'s
 	None
 }
 
-fn oracle(r: &mut Report, client: &AJar, server: &AJar, route: Route, m: &Merged) {
-	let Outcome::Ok(out) = &m.outcome else { return };
+fn oracle(r: &mut Report, client: &AJar, server: &AJar, route: Route, m: &Merged) -> bool {
+	let Outcome::Ok(out) = &m.outcome else { return true };
 	let mut bad: Vec<String> = vec![];
 	let cn: Vec<&str> = m.client.iter().map(|e| e.name.as_str()).collect();
 	let sn: Vec<&str> = m.server.iter().map(|e| e.name.as_str()).collect();
@@ -379,9 +401,10 @@ fn oracle(r: &mut Report, client: &AJar, server: &AJar, route: Route, m: &Merged
 				match (&x.content, &e.content) {
 					(PContent::Dir, OContent::Dir) => {}
 					(PContent::Other(d), OContent::Other(o)) => if d != o { bad.push(format!("{n}: one-sided resource changed")); },
-					(PContent::Class { parsed: Some(p), .. }, OContent::Parsed(o)) => {
+					(PContent::Class { parsed: Some(p), facts, .. }, OContent::Parsed(o)) => {
 						let mut w = p.clone(); w.vis.push(PAnn::Env(side));
 						if *o != w { bad.push(format!("{n}: one-sided class is not the input class plus the class-level {side:?} mark")); }
+						if let (Some(f), Some(fm)) = (facts, &e.facts) { real::check_one_sided(n, f, side, fm, &mut bad); }
 					}
 					_ => bad.push(format!("{n}: one-sided entry changed its kind")),
 				}
@@ -391,19 +414,18 @@ fn oracle(r: &mut Report, client: &AJar, server: &AJar, route: Route, m: &Merged
 				(PContent::Other(d), PContent::Other(d2), OContent::Other(o)) => if d == d2 && o != d { bad.push(format!("{n}: resource equal on both sides changed")); },
 				(PContent::Class { bytes: b1, parsed: p1, .. }, PContent::Class { bytes: b2, parsed: p2, .. }, o) => {
 					if b1 == b2 {
-						// identical class => identical bytes
-						let ob = match o {
-							OContent::Vec { bytes, .. } => Some(bytes.clone()),
-							OContent::Parsed(_) => None, // a ClassRepr::Parsed input handed through: compared below via the projection
-							_ => Some(vec![]),
-						};
-						match (ob, o, p1) {
-							(Some(ob), _, _) => if &ob != b1 { bad.push(format!("{n}: class identical on both sides is not passed through byte-identical")); },
-							(None, OContent::Parsed(op), Some(p)) => if op != p { bad.push(format!("{n}: class identical on both sides changed")); },
-							_ => bad.push(format!("{n}: class identical on both sides changed")),
-						}
+						// identical class => identical bytes: the bytes the merged entry yields (a ClassRepr::Vec's data,
+						// a ClassRepr::Parsed's tree written by duke::write_class, which is what IsClass::write does)
+						let ob: Option<&Vec<u8>> = match o { OContent::Vec { bytes, .. } => Some(bytes), OContent::Parsed(_) => e.written.as_ref(), _ => None };
+						if ob != Some(b1) { bad.push(format!("{n}: class identical on both sides is not passed through byte-identical ({})", match (o, ob) { (OContent::Parsed(_), Some(_)) => "it is handed on as a parsed tree, which the class writer encodes differently", (OContent::Parsed(_), None) => "it is handed on as a parsed tree the class writer cannot write", _ => "other bytes" })); }
+						if let (OContent::Parsed(op), Some(p)) = (o, p1) { if op != p { bad.push(format!("{n}: class identical on both sides changed")); } }
 					} else if let (Some(p1), Some(p2), OContent::Parsed(om)) = (p1, p2, o) {
 						check_merged_class(n, p1, p2, om, &mut bad);
+						if let (PContent::Class { facts: Some(f1), .. }, PContent::Class { facts: Some(f2), .. }, Some(fm)) = (&x.content, &y.content, &e.facts) {
+							r.count("faithful:differing classes compared as whole-class facts");
+							if f1 == f2 { r.count("faithful:differing bytes, equal trees"); }
+							real::check_faithful(n, f1, f2, fm, &mut bad);
+						}
 					} else { bad.push(format!("{n}: differing classes not merged into a parsed class")); }
 				}
 				_ => bad.push(format!("{n}: entry kinds of input and output do not match")),
@@ -411,19 +433,30 @@ fn oracle(r: &mut Report, client: &AJar, server: &AJar, route: Route, m: &Merged
 			(None, None, _) => {} // reported by the entries check
 		}
 	}
-	// the written jar, re-opened: same names in the same order; resources and passed-through classes byte for byte
+	// the written jar, re-opened: the same names; resources and passed-through classes byte for byte
+	let identical: HashMap<&str, &Vec<u8>> = m.client.iter().filter_map(|c| match (&c.content, m.server.iter().find(|s| s.name == c.name).map(|s| &s.content)) {
+		(PContent::Class { bytes: b1, .. }, Some(PContent::Class { bytes: b2, .. })) if b1 == b2 => Some((c.name.as_str(), b1)),
+		_ => None }).collect();
 	if let Some(re) = &m.reopened {
 		r.count("reopened:written jars re-opened");
 		let rn: Vec<&str> = re.iter().map(|x| x.0.as_str()).collect();
-		if rn != got { bad.push(format!("written jar re-opened has entries {rn:?}, the merge result {got:?}")); }
-		for ((_, data), e) in re.iter().zip(out) {
+		let (mut a, mut b) = (rn.clone(), got.clone()); a.sort(); b.sort();
+		if a != b { bad.push(format!("written jar re-opened has entries {rn:?}, the merge result {got:?}")); }
+		if rn == got { r.count("observed:written jar lists the entries in the order of the merge result"); }
+		for e in out {
+			let Some((_, data)) = re.iter().find(|x| x.0 == e.name) else { continue };
 			match (&e.content, data) {
 				(OContent::Other(d), Some(x)) => if d != x { bad.push(format!("{}: resource bytes changed by writing the jar", e.name)); },
 				(OContent::Vec { bytes, .. }, Some(x)) => if bytes != x { bad.push(format!("{}: passed-through class bytes changed by writing the jar", e.name)); },
 				(OContent::Parsed(p), Some(x)) => {
 					// the merged class as written into the jar, read by the harness' own strict parser (shares no code with duke)
 					match fbh::classfile::raw::parse(x).and_then(|rc| fbh::classfile::facts_raw::facts_from_raw(&rc)) {
-						Ok(f) => { r.count("reopened:merged classes read by the independent parser"); if let Some(d) = facts_differ(&f, p) { bad.push(format!("{}: merged class in the written jar, read by the independent parser, differs from the merge result in {d}", e.name)); } }
+						Ok(f) => {
+							r.count("reopened:merged classes read by the independent parser");
+							if let Some(d) = facts_differ(&f, p) { bad.push(format!("{}: merged class in the written jar, read by the independent parser, differs from the merge result in {d}", e.name)); }
+							// the whole class as written against the whole merged tree
+							if let Some(fm) = &e.facts { real::check_written(r, &e.name, fm, &f, &mut bad); }
+						}
 						Err(err) => bad.push(format!("{}: merged class in the written jar is rejected by the independent parser: {err}", e.name)),
 					}
 				}
@@ -434,10 +467,21 @@ fn oracle(r: &mut Report, client: &AJar, server: &AJar, route: Route, m: &Merged
 	}
 	if !bad.is_empty() {
 		let what = format!("dukebox::merge::merge ({route:?} jars): {}", bad[0]);
-		let replay = format!("property C13\nroute: {route:?}\nwhat:\n  {}\nclient jar:\n{}\nserver jar:\n{}\nmerged:\n{}\n", bad.join("\n  "),
+		let replay = format!("property C13\n{REPLAY_NOTE}\nroute: {route:?}\nwhat:\n  {}\nclient jar:\n{}\nserver jar:\n{}\nmerged:\n{}\n", bad.join("\n  "),
 			client.iter().map(|e| format!("  {e:?}")).collect::<Vec<_>>().join("\n"), server.iter().map(|e| format!("  {e:?}")).collect::<Vec<_>>().join("\n"),
-			out.iter().map(|e| format!("  {e:?}")).collect::<Vec<_>>().join("\n"));
+			out.iter().map(show_oentry).collect::<Vec<_>>().join("\n"));
 		r.violation(what, replay);
+		return false;
+	}
+	true
+}
+
+fn show_oentry(e: &OEntry) -> String {
+	match &e.content {
+		OContent::Other(d) => format!("  {:?}: Other({})", e.name, show_bytes(d)),
+		OContent::Vec { bytes, .. } => format!("  {:?}: class bytes {}", e.name, show_bytes(bytes)),
+		OContent::Dir => format!("  {:?}: Dir", e.name),
+		OContent::Parsed(p) => format!("  {:?}: parsed class {p:?}", e.name),
 	}
 }
 
@@ -492,7 +536,7 @@ pub fn run(ctx: &Ctx) -> anyhow::Result<Report> {
 	r.shard_size = if ctx.thorough { 250 } else { 60 };
 	let mut rng = Rng::new(ctx.seed);
 	let sweep_n = if ctx.thorough { 5 } else { 4 };
-	r.rule = format!("(1) exhaustive: every ordered pair of duplicate-free lists over {sweep_n} symbols (all lengths) as the interface lists of two otherwise equal classes, merged through dukebox::merge::merge; the model enumerates the same pairs inside Coq. (2) random list pairs up to length 12 that are interleavings of a common order, prefixes, suffixes, permutations, disjoint, equal, or arbitrary (also with duplicates, outside the theorems' hypothesis), through interfaces, fields and methods. (3) generated jar pairs (zip archives in memory and ParsedJars): disjoint/identical/overlapping entry sets over classes (net/minecraft, top-level, library packages), resources equal or different, directories, META-INF with manifest, .SF/.RSA/.DSA files; class pairs identical, differing in members/interfaces/annotations/inner classes; every second merged jar is also written (ParsedJar::to_mem), re-opened, and its merged classes read by the harness' independent class-file parser. (4) separate streams outside the hypotheses: differing version/access/deprecated/synthetic flags (assert panics), differing super class or class name (Err), differing inner-class records, duplicate member keys, unreadable class bytes, entry kind mismatch. A case is non-trivial when at least one list/jar is non-empty and the merge returned a jar; distinct by printed case.");
+	r.rule = format!("(1) exhaustive: every ordered pair of duplicate-free lists over {sweep_n} symbols (all lengths) as the interface lists of two otherwise equal classes, merged through dukebox::merge::merge; the model enumerates the same pairs inside Coq. (2) random list pairs up to length 12 that are interleavings of a common order, prefixes, suffixes, permutations, disjoint, equal, or arbitrary (also with duplicates, outside the theorems' hypothesis), through interfaces, fields and methods. (3) generated jar pairs through all four Jar implementations, also mixed (zip archives as UnnamedMemJar, NamedMemJar and FileJar on disk, entries stored or DEFLATE-compressed; ParsedJars): disjoint/identical/overlapping entry sets over classes (net/minecraft, top-level, library packages), resources equal or different, directories, META-INF with manifest, .SF/.RSA/.DSA files; class pairs identical, differing in members/interfaces/annotations/inner classes/permitted subclasses/record components; every second merged jar is also written (ParsedJar::to_mem), re-opened, and its merged classes read by the harness' independent class-file parser. (4) separate streams outside the hypotheses: differing version/access/deprecated/synthetic flags (assert panics), differing super class or class name (Err), differing inner-class records, duplicate member keys, unreadable class bytes, entry kind mismatch. (5) zip archives with entries of 5 bytes to 200 KiB (sizes around 32 KiB and 64 KiB), incompressible (xorshift noise), compressible, stored or deflated: resources both sides have (equal / different) or one side has, classes carrying the bytes in unknown attributes (identical, one-sided, differing); byte-exact pass-through is checked against the generator's ground truth, in the merge result and in the written jar. (6) real classes in two builds: javac corpus classes (incl. records and sealed classes, invokedynamic, switches, frames) against duke's re-write of them (other bytes, same tree), against builds lacking some members/interfaces, and generated classes (fbh::classfile::gen) assembled in two constant-pool/attribute/encoding layouts, whole or trimmed; the merged class is compared as whole-class facts with both inputs and, written and re-read by the independent strict parser, with the merged tree. A case is non-trivial when at least one list/jar is non-empty and the merge returned a jar; distinct by printed case.");
 
 	// 1. sweep
 	let alpha: Vec<u32> = (1..=sweep_n as u32).collect();
@@ -527,34 +571,68 @@ pub fn run(ctx: &Ctx) -> anyhow::Result<Report> {
 	}
 
 	// 3./4. jars
+	let tmp = ctx.out.join("jars");
 	let n = if ctx.thorough { 6000 } else { 640 };
 	for i in 0..n {
 		let twist = if i % 4 == 3 { gen::Twist::pick(&mut rng) } else { gen::Twist::None };
-		let route = if rng.chance(3, 5) { Route::Zip } else { Route::Parsed };
+		let route = gen::gen_route(&mut rng);
 		let (client, server) = gen::jar_pair(&mut rng, twist, route);
-		let stream = format!("jar-{}-{}", if route == Route::Zip { "zip" } else { "parsed" }, twist.name());
-		match run_merge(&client, &server, route, i % 2 == 0) {
-			Err(e) => { r.count(&format!("skipped:{}", e.split(':').next().unwrap_or("?"))); }
-			Ok(m) => {
-				let term = g_case(&m);
-				let ok = matches!(m.outcome, Outcome::Ok(_));
-				r.eval(&term, ok && !(client.is_empty() && server.is_empty()));
-				r.count(&format!("outcome:{}:{}", twist.name(), match m.outcome { Outcome::Ok(_) => "ok", Outcome::Fail => "err", Outcome::Panic => "panic" }));
-				if twist == gen::Twist::None {
-					// inside the hypotheses the merge must succeed
-					if !ok { r.violation(format!("merge of well-formed jars did not return a jar: {:?}", m.outcome), format!("property C13\nroute {route:?}\nclient jar:\n{client:#?}\nserver jar:\n{server:#?}\n")); }
-				}
-				oracle(&mut r, &client, &server, route, &m);
-				stats(&mut r, &m);
-				r.case(&stream, term);
-			}
-		}
+		let stream = format!("jar-{}-{}", route.name(), twist.name());
+		jar_case(&mut r, &stream, twist.name(), twist == gen::Twist::None, &client, &server, route, i % 2 == 0, &tmp);
 	}
+	// 5. zip archives with large entries (every merged jar written and re-opened)
+	let n = if ctx.thorough { 60 } else { 10 };
+	for i in 0..n {
+		let route = if i % 5 == 4 { gen::gen_route(&mut rng) } else { gen::gen_zip_route(&mut rng) };
+		let (client, server) = gen::big_jar_pair(&mut rng);
+		for e in client.iter().chain(server.iter()) {
+			let len = match &e.content { AContent::Other(d) => d.len(), AContent::Class(c) => c.attrs.iter().map(|a| a.2).sum(), _ => 0 };
+			let zip_side = |k| k != JarKind::Parsed;
+			if zip_side(route.c) || zip_side(route.s) { r.count(&format!("big entries:{} {}", if e.deflate { "deflated" } else { "stored" }, if len > 32768 { "> 32 KiB" } else if len >= 8192 { "8..32 KiB" } else { "small" })); }
+		}
+		jar_case(&mut r, &format!("bigjar-{}", route.name()), "big", true, &client, &server, route, true, &tmp);
+	}
+	// 6. real classes in two builds (every merged jar written and re-opened)
+	let corpus = real::load_corpus();
+	r.count_n("real:corpus classes usable (duke reads them, <= 6000 bytes)", corpus.all.len() as u64);
+	r.count_n("real:of these records / sealed classes", corpus.featured.len() as u64);
+	let n = if ctx.thorough { 900 } else { 110 };
+	for _ in 0..n {
+		let route = gen::gen_route(&mut rng);
+		let mut kinds = vec![];
+		let (client, server) = gen::real_jar_pair(&mut rng, &corpus, &mut kinds);
+		for k in kinds { r.count(&format!("real:{k}")); }
+		jar_case(&mut r, &format!("realjar-{}", route.name()), "real", true, &client, &server, route, true, &tmp);
+	}
+	let _ = std::fs::remove_dir_all(&tmp);
 	let panics: u64 = r.dist.iter().filter(|(k, _)| k.starts_with("outcome:") && k.ends_with(":panic")).map(|(_, v)| *v).sum();
 	let errs: u64 = r.dist.iter().filter(|(k, _)| k.starts_with("outcome:") && k.ends_with(":err")).map(|(_, v)| *v).sum();
 	r.notes.push(format!("observed outside the hypotheses (not violations of C13): {panics} merges panicked (assert_eq!/panic! on differing version, access, deprecated/synthetic flags, inner-class records), {errs} returned Err (differing super class or class name, unreadable class bytes, entry kind mismatch); the model predicts each of these outcomes (Panic/Fail) and is compared on them"));
-	r.notes.push("observed, outside the property text: a merged class has permitted_subclasses = None and no record components whatever the inputs had (TODOs in class_merger_merge); META-INF/*.DSA and *.EC are kept, only *.SF and *.RSA are dropped; a resource differing between the sides is taken from the client with a warning on stderr".to_owned());
+	r.notes.push("observed, outside the property text (counted under observed:* in the distribution; the model follows the code here, but neither the oracle nor the comparison with the model demands it): Err vs panic for a merge that yields no jar; entry order of the merged jar (client's entries, then server-only ones); entry attributes (the client's); a resource differing between the sides is taken from the client with a warning on stderr; META-INF/*.DSA and *.EC are kept, only *.SF and *.RSA are dropped".to_owned());
+	r.notes.push("a merged class keeps the client's record components and the union of both sides' permitted subclasses (fix: merging two versions of a class keeps its record components and permitted subclasses); before that repair Records$Point merged with its own duke re-write lost its Record attribute".to_owned());
 	Ok(r)
+}
+
+#[allow(clippy::too_many_arguments)]
+fn jar_case(r: &mut Report, stream: &str, label: &str, inside: bool, client: &AJar, server: &AJar, route: Route, reopen: bool, tmp: &Path) {
+	match run_merge(client, server, route, reopen, tmp) {
+		Err(e) => { r.count(&format!("skipped:{}", e.split(':').next().unwrap_or("?"))); }
+		Ok(m) => {
+			let term = g_case(&m);
+			let ok = matches!(m.outcome, Outcome::Ok(_));
+			r.eval(&term, ok && !(client.is_empty() && server.is_empty()));
+			r.count(&format!("outcome:{label}:{}", match m.outcome { Outcome::Ok(_) => "ok", Outcome::Fail => "err", Outcome::Panic => "panic" }));
+			r.count(&format!("jar kinds:{}", route.name()));
+			// inside the hypotheses the merge must return a jar
+			if inside && !ok {
+				r.violation(format!("merge of well-formed jars did not return a jar: {:?}", m.outcome),
+					format!("property C13\n{REPLAY_NOTE}\nroute {route:?}\nclient jar:\n{}\nserver jar:\n{}\n", client.iter().map(|e| format!("  {e:?}")).collect::<Vec<_>>().join("\n"), server.iter().map(|e| format!("  {e:?}")).collect::<Vec<_>>().join("\n")));
+			}
+			oracle(r, client, server, route, &m);
+			stats(r, &m);
+			r.case(stream, term);
+		}
+	}
 }
 
 fn stats(r: &mut Report, m: &Merged) {
@@ -571,14 +649,24 @@ fn stats(r: &mut Report, m: &Merged) {
 	if let Outcome::Ok(o) = &m.outcome {
 		let kept = o.len(); let total = m.client.len() + m.server.len() - both;
 		if kept < total { r.count_n("entries_skipped", (total - kept) as u64); }
-		// behaviour outside the property text, recorded as observed
+		// behaviour outside the property text, recorded as observed (the model follows the code in these
+		// respects; neither the oracle nor the comparison with the model demands them)
+		let cn: Vec<&str> = m.client.iter().map(|e| e.name.as_str()).collect();
+		let mut order: Vec<&str> = cn.iter().copied().filter(|n| !is_signature(n)).collect();
+		order.extend(m.server.iter().map(|e| e.name.as_str()).filter(|n| !cn.contains(n) && !is_signature(n) && !is_server_library(n)));
+		r.count(if o.iter().map(|e| e.name.as_str()).eq(order.iter().copied()) { "observed:entry order = the client's entries, then the server-only ones" } else { "observed:entry order differs from client-then-server" });
 		for e in o {
+			let (ic, is) = (by.get(e.name.as_str()), m.server.iter().find(|x| x.name == e.name));
+			if let Some(src) = ic.copied().or(is) { r.count(if src.attr == e.attr { "observed:entry attributes = the client's (the server's for a server-only entry)" } else { "observed:entry attributes differ from the client's" }); }
+			if let (Some(PEntry { content: PContent::Other(dc), .. }), Some(PEntry { content: PContent::Other(ds), .. }), OContent::Other(d)) = (ic.copied(), is, &e.content) {
+				if dc != ds && e.name != MANIFEST_NAME { r.count(if d == dc { "observed:resource differing between the sides: the client's bytes" } else if d == ds { "observed:resource differing between the sides: the server's bytes" } else { "observed:resource differing between the sides: other bytes" }); }
+			}
 			if e.name.starts_with("META-INF/") && e.name.ends_with(".DSA") { r.count("observed:META-INF/*.DSA kept (only .SF and .RSA are dropped)"); }
 			if let (OContent::Parsed(mc), Some(c)) = (&e.content, by.get(e.name.as_str())) {
 				if let PContent::Class { parsed: Some(pc), .. } = &c.content {
 					if m.server.iter().any(|x| x.name == e.name) {
-						if pc.perm != 0 && mc.perm == 0 { r.count("observed:merged class drops PermittedSubclasses"); }
-						if pc.rec != 0 && mc.rec == 0 { r.count("observed:merged class drops record components"); }
+						if pc.perm.is_some() { r.count(if mc.perm.is_some() { "observed:sealed class merged, PermittedSubclasses kept" } else { "observed:merged class drops PermittedSubclasses" }); }
+						if pc.rec != 0 { r.count(if mc.rec != 0 { "observed:record class merged, record components kept" } else { "observed:merged class drops record components" }); }
 					}
 				}
 			}
